@@ -44,16 +44,22 @@ def filtered(s0, s, n, x, lst, upto, tag="filtered"):
                                       patterns=[s0.at(s0.kids(n), k)])}
 
 
+def all_nodes_in(s0, s, lst):
+    j = z3.Int("an_j")
+    return smt.FA([j], z3.Implies(z3.And(0 <= j, j < s.len(lst)), z3.And(Val.is_ref(s.at(lst, j)), s0.is_node(s.nat(lst, j)))), patterns=[s.at(lst, j)])
+
+
 def install_find_all_children(w):
     def ensures(s0, s, self, child_name, result):
         r = Val.r(result)
-        return {"top:fresh-list": z3.And(Val.is_ref(result), r >= s0.top, r < s.top, kind(r) == KIND_LIST),
+        return {"top:fresh-list": z3.And(Val.is_ref(result), r >= s0.top, r < s.top, kind(r) == KIND_LIST), "elements-are-nodes": all_nodes_in(s0, s, r), "no-new-nodes": no_new_nodes(s0, s),
                 **filtered(s0, s, self, child_name, r, s0.nkids(self), "top:exactly-the-matching-children-in-order")}
 
     def inv(s0, s, v):
         acc = v.V("__comp1")
         r = Val.r(acc)
         return {"acc": z3.And(Val.is_ref(acc), r >= s0.top, r < s.top, kind(r) == KIND_LIST, s.len(r) >= 0), "bound": v._k <= s0.nkids(v.self),
+                "elements-are-nodes": all_nodes_in(s0, s, r), "no-new-nodes": no_new_nodes(s0, s),
                 **filtered(s0, s, v.self, v.child_name, r, v._k, "so-far")}
 
     def axioms(s0, s, v):
@@ -343,3 +349,183 @@ def install_find_all_descendants(w):
     w.call_lemmas[(Q_FAD, Q_FAD)] = lambda s0, s, v: desc_frame_steps(s0, s)
     w.loop(Q_FAD, 1, inv=inv, axioms=loop_axioms, var_types={"child_node": "Node"})
     return con
+
+
+# ------------------------------------------------------------------------------------------------ all nodes by path (generation by generation)
+Q_PATHN = N + "find_all_nodes_by_path"
+# ghosts: the k-th generation below a node along a path of names.  G_0 = [node];  G_{k+1} = for every element of G_k in order, its children named
+# path[k] in order.  GL(k) its length, GE(k, j) its j-th element, OFF(k, i) how many elements of G_{k+1} come from the first i elements of G_k.
+# SI / SC (L-enum): for every position j of G_{k+1}, the index of its parent in G_k and its own index among that parent's children.
+_GARGS = (*_CS, smt.FieldArr, I, smt.ElemArr)
+_GL = z3.Function("gen_len", *_GARGS, I, I)
+_GE = z3.Function("gen_elem", *_GARGS, I, I, Val)
+_GOFF = z3.Function("gen_offset", *_GARGS, I, I, I)
+_GSI = z3.Function("gen_src_parent", *_GARGS, I, I, I)
+_GSC = z3.Function("gen_src_child", *_GARGS, I, I, I)
+
+
+class Gen:
+    def __init__(self, s, node, path):
+        self.s, self.node, self.path = s, node, path
+        self.a = (*s.cs, s.arr("F:_name"), node, s.elems(path))
+
+    def L(self, k):
+        return _GL(*self.a, k)
+
+    def E(self, k, j):
+        return _GE(*self.a, k, j)
+
+    def OFF(self, k, i):
+        return _GOFF(*self.a, k, i)
+
+    def SI(self, k, j):
+        return _GSI(*self.a, k, j)
+
+    def SC(self, k, j):
+        return _GSC(*self.a, k, j)
+
+    def x(self, k):
+        return Val.s(self.s.at(self.path, k))
+
+    def base(self):
+        return z3.And(self.L(0) == 1, self.E(0, 0) == Val.ref(self.node))
+
+    def per_parent(self, k, i):
+        p = Val.r(self.E(k, i))
+        return CNT(self.s, p, self.x(k), self.s.nkids(p))
+
+    def off_step(self, k, i):
+        return z3.And(self.OFF(k, 0) == 0, self.OFF(k, i + 1) == self.OFF(k, i) + self.per_parent(k, i), self.L(k + 1) == self.OFF(k, self.L(k)))
+
+    def elem_def(self, k):
+        s = self.s
+        i, c = z3.Ints("gd_i gd_c")
+        p = Val.r(self.E(k, i))
+        return smt.FA([i, c], z3.Implies(z3.And(0 <= i, i < self.L(k), 0 <= c, c < s.nkids(p), s.name(s.kid(p, c)) == self.x(k)),
+                                         self.E(k + 1, self.OFF(k, i) + CNT(s, p, self.x(k), c)) == s.at(s.kids(p), c)),
+                      patterns=[z3.MultiPattern(self.E(k, i), s.at(s.kids(p), c))])
+
+    def enum(self, k):
+        """L-enum: every position of G_{k+1} has a source (a counting argument on paper; stated as part of the definition of the ghosts)"""
+        s = self.s
+        j = z3.Int("ge_j")
+        si, sc = self.SI(k + 1, j), self.SC(k + 1, j)
+        p = Val.r(self.E(k, si))
+        return smt.FA([j], z3.Implies(z3.And(0 <= j, j < self.L(k + 1)),
+                                      z3.And(0 <= si, si < self.L(k), 0 <= sc, sc < s.nkids(p), s.name(s.kid(p, sc)) == self.x(k),
+                                             j == self.OFF(k, si) + CNT(s, p, self.x(k), sc))),
+                      patterns=[self.E(k + 1, j)])
+
+
+def install_find_all_nodes_by_path(w):
+    from .node_ops import kids_typed
+    install_find_all_children(w)
+
+    def requires(s, self, path):
+        j = z3.Int("pq_j")
+        return {"path-of-names": smt.FA([j], z3.Implies(z3.And(0 <= j, j < s.len(path)), Val.is_strv(s.at(path, j))), patterns=[s.at(path, j)]),
+                "path-is-no-child-list": smt.FA([j], z3.Implies(s.is_node(j), s.kids(j) != path), patterns=[s.f("_children", j)]),
+                "kids-typed": kids_typed(s)}
+
+    def axioms(s, self, path):
+        return {"gen0": Gen(s, self, path).base()}
+
+    def is_gen(s0, s, G, lst, k):
+        """lst is generation k"""
+        j = z3.Int("ig_j")
+        return z3.And(s.len(lst) == G.L(k),
+                      smt.FA([j], z3.Implies(z3.And(0 <= j, j < s.len(lst)), z3.And(s.at(lst, j) == G.E(k, j), Val.is_ref(s.at(lst, j)), s0.is_node(s.nat(lst, j)))),
+                             patterns=[s.at(lst, j)]))
+
+    def ensures(s0, s, self, path, result):
+        G = Gen(s0, self, path)
+        k = z3.Int("en_k")
+        R = Val.r(result)
+        L = s0.len(path)
+        return {"top:fresh-list": z3.And(Val.is_ref(result), R >= s0.top, R < s.top, kind(R) == KIND_LIST),
+                "top:empty-path-gives-empty-list": z3.Implies(L == 0, s.len(R) == 0),
+                "top:the-last-generation": z3.Implies(L > 0, is_gen(s0, s, G, R, L))}
+
+    def cur_list(v):
+        x = v.raw("current_list")
+        return x.ref if isinstance(x, PList) else (x.t if x.t.sort() == I else Val.r(x.t))
+
+    def next_list(v):
+        x = v.raw("next_generation")
+        return x.ref if isinstance(x, PList) else (x.t if x.t.sort() == I else Val.r(x.t))
+
+    def outer_inv(s0, s, v):
+        G = Gen(s0, v.self, v.path)
+        C = cur_list(v)
+        return {"bound": v._k <= s0.len(v.path), "list": z3.And(C >= s0.top, C < s.top, kind(C) == KIND_LIST, s.len(C) >= 0), "generation": is_gen(s0, s, G, C, v._k),
+                "no-new-nodes": no_new_nodes(s0, s), "top": s.top >= s0.top}
+
+    def placed(s0, s, G, k, cur, nxt, upto):
+        i, c = z3.Ints("pp_i pp_c")
+        p = Val.r(G.E(k, i))        # = cur[i] by the outer invariant; phrased over the ghost so that it chains with elem_def / L-enum
+        pos = G.OFF(k, i) + CNT(s0, p, G.x(k), c)
+        return smt.FA([i, c], z3.Implies(z3.And(0 <= i, i < upto, 0 <= c, c < s0.nkids(p), s0.name(s0.kid(p, c)) == G.x(k)),
+                                         z3.And(0 <= pos, pos < s.len(nxt), s.at(nxt, pos) == s0.at(s0.kids(p), c))),
+                      patterns=[z3.MultiPattern(G.E(k, i), s0.at(s0.kids(p), c))])
+
+    def nodes_in(s0, s, lst):
+        j = z3.Int("ni_j")
+        return smt.FA([j], z3.Implies(z3.And(0 <= j, j < s.len(lst)), z3.And(Val.is_ref(s.at(lst, j)), s0.is_node(s.nat(lst, j)))), patterns=[s.at(lst, j)])
+
+    def inner_inv(s0, s, v):
+        G = Gen(s0, v.self, v.path)
+        C, X = cur_list(v), next_list(v)
+        k = v.k_outer
+        return {"bound": v._k <= s.len(C), "lists": z3.And(X >= s0.top, X < s.top, kind(X) == KIND_LIST, X != C, s.len(X) >= 0),
+                "current-kept": z3.And(s.len(C) == v.len_C, s.elems(C) == v.elems_C),
+                "count": s.len(X) == G.OFF(k, v._k), "placed": placed(s0, s, G, k, C, X, v._k), "next-are-nodes": nodes_in(s0, s, X),
+                "no-new-nodes": no_new_nodes(s0, s), "top": s.top >= s0.top}
+
+    def inner_axioms(s0, s, v):
+        G = Gen(s0, v.self, v.path)
+        return {"off": G.off_step(v.k_outer, v._k)}
+
+    def outer_axioms(s0, s, v):
+        G = Gen(s0, v.self, v.path)
+        return {"elem-def": G.elem_def(v._k), "L-enum": G.enum(v._k), "off0": z3.And(G.OFF(v._k, 0) == 0, G.L(v._k + 1) == G.OFF(v._k, G.L(v._k))),
+                # instance of the lemma empty_generation_lemma() (induction over the generation index): after an empty generation all are empty
+                "L-empty-generation": z3.Implies(z3.And(v._k <= s0.len(v.path), G.L(v._k) == 0), G.L(s0.len(v.path)) == 0)}
+
+    def cnt_frame(s0, s, v):
+        n, k = z3.Ints("cf_n cf_k")
+        x = z3.String("cf_x")
+        return {"prove:children-structure-unchanged": cs_same(s0, s),
+                "cnt-frame": smt.FA([n, x, k], z3.Implies(s0.is_node(n), CNT(s, n, x, k) == CNT(s0, n, x, k)), patterns=[CNT(s, n, x, k)])}
+
+    con = Contract(Q_PATHN, params={"self": "Node", "path": "list:val"}, requires=requires, axioms=axioms, ensures=ensures, allocates=True, result_ty="list:Node",
+                   mod=lambda s0, r, **kw: z3.BoolVal(False),
+                   assumptions=("T-unfold(gen_len, gen_elem, gen_offset, count_named)",
+                                "L-empty-generation: proved by induction (obligations C09/lemma:empty-generation/*)",
+                                "L-enum: every position of a generation has a source position (counting argument; part of the ghosts' definition, not machine-checked)"))
+    w.add(con)
+    vt = {"name": "str", "node": "Node", "current_list": "list:Node", "next_generation": "list:Node"}
+    w.loop(Q_PATHN, 1, inv=outer_inv, axioms=outer_axioms, var_types=vt)
+    w.loop(Q_PATHN, 2, inv=inner_inv, axioms=inner_axioms, var_types=vt,
+           ghost={"k_outer": lambda s, v: v.loop_index(1), "len_C": lambda s, v: s.len(cur_list(v)), "elems_C": lambda s, v: s.elems(cur_list(v))})
+    w.call_lemmas[(Q_PATHN, Q_FAC)] = cnt_frame
+    return con
+
+
+def empty_generation_lemma():
+    """L-empty-generation, by induction over m >= k:  GL(k) = 0  ==>  GL(m) = 0.  Step: GL(m+1) = OFF(m, GL(m)) = OFF(m, 0) = 0, from the
+    unfoldings at m.  Base and step are discharged by z3; the induction principle is applied here.  -> [(name, proved?, seconds)]"""
+    import time
+    from pyvc.core import Heap, SV
+    s = SV(Heap())
+    n, p, k, m = z3.Ints("el_n el_p el_k el_m")
+    G = Gen(s, n, p)
+    defs = [G.OFF(m, 0) == 0, G.L(m + 1) == G.OFF(m, G.L(m))]
+    out = []
+    for nm, hyps, goal in (("base", [G.L(k) == 0], G.L(k) == 0), ("step", defs + [k <= m, G.L(m) == 0], G.L(m + 1) == 0)):
+        sol = z3.Solver()
+        sol.set("timeout", 10000)
+        sol.add(*hyps)
+        sol.add(z3.Not(goal))
+        t0 = time.time()
+        out.append((nm, sol.check() == z3.unsat, time.time() - t0))
+    return out
